@@ -65,7 +65,10 @@ def check_mono(c):
     a = [x[0] for x in ab]
     b = [x[1] for x in ab]
     tags = ['box=' + '/'.join(box)]
-    for p in itertools.product(*[range(n) for n in shape]):
+    plist = list(itertools.product(*[range(n) for n in shape]))
+    if c.get('few'):
+        plist = sorted({tuple(min(n - 1, q) for n in shape) for q in (0, 1, 2, 5, 10 ** 6)} | {tuple((n - 1) if k == j else 0 for k, n in enumerate(shape)) for j in range(d)})
+    for p in plist:
         case = dict(c, p=list(p))
         res.ev()
         # node values: rank-1 TT and dense
@@ -328,6 +331,10 @@ def strata(tier, seed):
             for box in single:
                 cs.append(dict(shape=[n], box=[box], ms=[2, 9], seed=seed))
                 cs.append(dict(shape=[n, 3], box=[box] * 2, ms=[2, 9], seed=seed))
+    for n in (9, 16, 17, 33):
+        for box in (['sym1'], ['asym'], ['unit']):
+            cs.append(dict(shape=[n], box=box, ms=[2, n + 3], few=True, seed=seed))
+            cs.append(dict(shape=[n, 4], box=box * 2, ms=[3], few=True, seed=seed))
     yield Stratum('all monomials', cs, 'mono', size=len(cs), chunk=4, bounds={'d': [1, 3], 'n': [2, top]})
     ls = [dict(n=n, box=bk, d=d, rank=rk, ms=[2, 3, 7], seed=seed)
           for n in range(2, (6 if tier == 'quick' else 9)) for bk in single for d in (1, 2, 3) for rk in (2, 3)
